@@ -548,6 +548,12 @@ where
                 return Err(WebauthnError::OriginRpMissmatch);
             }
 
+            // The insecure localhost exception is for the literal `localhost` host only. For
+            // any of its subdomains `localhost` is a public suffix like every unlisted TLD.
+            if rp_id == "localhost" && effective_domain != "localhost" {
+                return Err(WebauthnError::InvalidRpId);
+            }
+
             effective_domain = rp_id;
         }
 
